@@ -219,6 +219,9 @@ func genClass(r *rng) *gType {
 			if r.intn(6) == 0 && f.enc == "" {
 				f.enc = "base64"
 			}
+			if r.intn(5) == 0 && f.enc == "" && (f.typ == tString || f.typ == tBytes) {
+				f.enc = "none" // any byte may be stored: '=' and 8-bit bytes included
+			}
 			return f
 		}
 		for seg := 0; seg < n && len(used) < len(paramNms)-3; seg++ {
